@@ -3,8 +3,12 @@
 package evm
 
 import (
+	"bytes"
+	"sort"
+
 	"github.com/spf13/viper"
 
+	"github.com/dappledger/AnnChain/eth/common"
 	etypes "github.com/dappledger/AnnChain/eth/core/types"
 	"github.com/dappledger/AnnChain/eth/ethdb"
 	"github.com/dappledger/AnnChain/eth/params"
@@ -41,4 +45,21 @@ func VerifSetValidateRoutines(n int) int {
 	old := validateRoutineCount
 	validateRoutineCount = n
 	return old
+}
+
+// VerifAccountOrder, when set, chooses the order in which promoteExecutables visits
+// the waiting accounts (any order is legal: production ranges over a map).
+var VerifAccountOrder func(sorted []common.Address) []common.Address
+
+func verifAccountOrder(addrs []common.Address) []common.Address {
+	sort.Slice(addrs, func(i, j int) bool { return bytes.Compare(addrs[i][:], addrs[j][:]) < 0 })
+	if VerifAccountOrder != nil {
+		return VerifAccountOrder(addrs)
+	}
+	return addrs
+}
+
+// VerifPoolLimits returns the configured size bounds of the transaction pool.
+func (app *EVMApp) VerifPoolLimits() (waiting, pending int) {
+	return app.pool.waitingLimit, app.pool.pendingLimit
 }
